@@ -34,11 +34,11 @@ NEEDS_EXT = True
 TRUSTED = [
     "C03 world: behaviour tables of a zombie / a reaped process (which path gives ENOENT, ESRCH, empty) were captured from the sandbox kernel 6.18 and are re-checked against a live zombie child on every run; they are modelled, not verified",
     "C03 granularity: faults happen at OS-access granularity (open, first read of a file, readlink, listdir, stat/lstat, native call); a procfs record is produced by one read(2), later readline()/iteration is served from the buffer; short or garbled reads are not modelled",
-    "C03 fault layer (harness/props/c03_faultfs.py): patches builtins.open, os.readlink/listdir/stat/lstat, four native calls; accesses to paths outside the fake procfs root (os.stat on a descriptor's target, pwd, /dev for the terminal map) are not fault points",
+    "C03 fault layer (harness/props/c03_faultfs.py): patches builtins.open, os.readlink/listdir/stat/lstat, four native calls; outside the fake procfs root only the paths a procfs record names and the world registers (FaultFS.ext: the backing path of a ' (deleted)' mapping of smaps, statted by memory_maps() through path_exists_strict) are fault points; the other outside accesses (os.stat on a descriptor's target in open_files()/isfile_strict, pwd, /dev for the terminal map) are not",
     "C03 denials apply to paths below /proc/<pid> (any pid) and to native per-process calls; the /proc listing itself and /proc/net/* are system-wide and never denied",
 ]
 MANIFEST = {
-    "level_text": "Machine-checked Lean 4 proofs over a shallow state+exception monad model of psutil's Linux process layer and front end: for every modelled public Process method (C03_safe_<method>, assembled in C03_all_methods over the translator-generated public method list, un-modelled names listed explicitly) and EVERY admissible fault plan (the target turns zombie and/or disappears at any access index, at most one access is refused with EACCES/EPERM — a superset of the property's vanishAt/zombieFrom/denyAt/deny-then-vanish plans) the outcome is a well-formed value or NoSuchProcess/ZombieProcess/AccessDenied carrying the object's pid; loops (threads, open_files, net_connections, ppid_map, children, children(recursive=True) with its stack walk, as_dict, process_iter) by induction over the listed names / the walk's fuel so any number of threads/descriptors/PIDs and any process tree is covered; parents() is modelled and the full statement is proved FALSE of the current source (one denial while an ancestor is queried makes it raise NoSuchProcess/AccessDenied carrying the ancestor's pid: C03_parents_counterexample, known finding C03-parents-foreign-pid), with the weaker guarantee (psutil errors only, C03_safe_parents_partial) and the repaired loop (C03_safe_parents_repaired) proved; parsing-error constructors are proved unreachable; the bare FileNotFoundError re-raise of wrap_exceptions is proved unreachable under admissible plans (and reachable with two denials); C03_gone_is_NSP and its history forms: C03_gone_forever_from (the process vanishes at ANY access index k0, also in the middle of an earlier call; every call of any sequence of covered queries that starts at a counter >= k0 raises NoSuchProcess(pid)) and C03_gone_forever_flags (the same with the object's _gone/_pid_reused/_exe attributes threaded through the history, any flag values, is_running() answers False), C03_as_dict_policy, C03_process_iter_swallow. The fuel the model gives to the two while-loops is proved never to run out (C03_children_recursive_fuel_sufficient, C03_parents_fuel_sufficient: any ppid map incl. cycles). Outside the property's quantifier, as characterisation: a table over all modelled methods of what TWO refused accesses do (C03_two_denials_table_leaks: 6 concrete leaking plans, replayed on the real code; C03_two_denials_table_bounded: no pair leaks for the other 31 on the two-process world, bounded exhaustive). children() is proved safe for the repaired ppid_map and a counterexample plan is proved for the unrepaired one (lead L3). Tied to the code by translator facts (except tables, decorator tables) that feed the proof obligation cfg_good, and by an exhaustive single-fault (quick) / double-fault (thorough) differential run of the real methods against the model on fake procfs worlds, plus histories of several calls on ONE object with the vanish point at every index of the history (family history) and every pair of refused accesses on the small worlds (family two_denials). Round 3 (audit): the clause 'the class matches the cause' is in the Spec (Spec.Cause over the property's four plan shapes) and is REFUTED for the source as it is (C03_cause_counterexample: one refused access inside is_running()'s identity probe makes ppid/children/parent/parents raise NoSuchProcess for a live readable process — known finding C03-denied-probe-reads-as-reuse, no repair proposed: it conflicts with C05/C01's recycled-PID statements when the PID's current owner is unreadable); proved only BOUNDED-exhaustively (all plan shapes with indices < 12 / < 16 on the 2- and 3-process worlds: C03_cause_bounded_plain for the 32 queries outside _raise_if_pid_reused, C03_cause_bounded_unrepaired = exactly the probe refusals break it, C03_cause_bounded_repaired for a lenient probe) and decided in Lean on the REAL code's outcome for every property-shaped plan of the correspondence; is_running() never raises (C03_is_running_never_raises); as_dict() in its default form (attrs=None / []) is modelled, proved (C03_as_dict_default_policy) and driven; shape facts (statements inside each modelled try, oneshot()'s finally, as_dict's iteration list, the probe's comparison) feed the obligations cfg_shapes_good / cfg_running_probe_known. Landing of /repo d7107b4 (C05's repair: the lowest-PID stop of parent() runs self._raise_if_pid_reused() before it answers None): translator fact parentRootStop (total extractor: the statements of the stop and the statement before it, as text when unrecognised) feeds the model branch Fe.rootStop (one more open + read of /proc/<pid>/stat on the stop — on the object itself and on the ancestor object parents() reaches) and the obligation cfg_parent_root_guard; C03_safe_parent, C03_safe_parents_partial and C03_safe_parents_repaired keep their strength and cover the extra probe (it can only end in NoSuchProcess(pid) or let the stop answer None: rootStop_safe), concrete runs on the lowest-PID world in C03_parent_root_stop_probe (3 accesses instead of 1; gone -> NoSuchProcess instead of None; refused probe -> NoSuchProcess = region of finding C03-denied-probe-reads-as-reuse); on the real code the repeated parent()/parents() call after the process is gone must now raise NoSuchProcess for the lowest pid too (exemption removed). Partial: faults at OS-access granularity only; other processes are static during a call; the history theorems assume an inactive oneshot cache at the start of each call and exclude the documented memo answers (pid, create_time, a successful exe()); parent()/parents() depend on the module global _LOWEST_PID and are not history calls of the model; 'safe under any number of refusals' is only bounded-exhaustive (C03_multi_denial_safe_Full is not proved); 'never a parsing error' is relative to the content abstraction (files of a live or zombie process are well-formed except where the kernel empties them); no correspondence case has object != target or another process changing mid-call.",
+    "level_text": "Machine-checked Lean 4 proofs over a shallow state+exception monad model of psutil's Linux process layer and front end: for every modelled public Process method (C03_safe_<method>, assembled in C03_all_methods over the translator-generated public method list, un-modelled names listed explicitly) and EVERY admissible fault plan (the target turns zombie and/or disappears at any access index, at most one access is refused with EACCES/EPERM — a superset of the property's vanishAt/zombieFrom/denyAt/deny-then-vanish plans) the outcome is a well-formed value or NoSuchProcess/ZombieProcess/AccessDenied carrying the object's pid; loops (threads, open_files, net_connections, ppid_map, children, children(recursive=True) with its stack walk, as_dict, process_iter) by induction over the listed names / the walk's fuel so any number of threads/descriptors/PIDs and any process tree is covered; parents() is modelled and the full statement is proved FALSE of the current source (one denial while an ancestor is queried makes it raise NoSuchProcess/AccessDenied carrying the ancestor's pid: C03_parents_counterexample, known finding C03-parents-foreign-pid), with the weaker guarantee (psutil errors only, C03_safe_parents_partial) and the repaired loop (C03_safe_parents_repaired) proved; parsing-error constructors are proved unreachable; the bare FileNotFoundError re-raise of wrap_exceptions is proved unreachable under admissible plans (and reachable with two denials); C03_gone_is_NSP and its history forms: C03_gone_forever_from (the process vanishes at ANY access index k0, also in the middle of an earlier call; every call of any sequence of covered queries that starts at a counter >= k0 raises NoSuchProcess(pid)) and C03_gone_forever_flags (the same with the object's _gone/_pid_reused/_exe attributes threaded through the history, any flag values, is_running() answers False), C03_as_dict_policy, C03_process_iter_swallow. The fuel the model gives to the two while-loops is proved never to run out (C03_children_recursive_fuel_sufficient, C03_parents_fuel_sufficient: any ppid map incl. cycles). Outside the property's quantifier, as characterisation: a table over all modelled methods of what TWO refused accesses do (C03_two_denials_table_leaks: 6 concrete leaking plans, replayed on the real code; C03_two_denials_table_bounded: no pair leaks for the other 31 on the two-process world, bounded exhaustive). children() is proved safe for the repaired ppid_map and a counterexample plan is proved for the unrepaired one (lead L3). Tied to the code by translator facts (except tables, decorator tables) that feed the proof obligation cfg_good, and by an exhaustive single-fault (quick) / double-fault (thorough) differential run of the real methods against the model on fake procfs worlds, plus histories of several calls on ONE object with the vanish point at every index of the history (family history) and every pair of refused accesses on the small worlds (family two_denials). Round 3 (audit): the clause 'the class matches the cause' is in the Spec (Spec.Cause over the property's four plan shapes) and is REFUTED for the source as it is (C03_cause_counterexample: one refused access inside is_running()'s identity probe makes ppid/children/parent/parents raise NoSuchProcess for a live readable process — known finding C03-denied-probe-reads-as-reuse, no repair proposed: it conflicts with C05/C01's recycled-PID statements when the PID's current owner is unreadable); proved only BOUNDED-exhaustively (all plan shapes with indices < 12 / < 16 on the 2- and 3-process worlds: C03_cause_bounded_plain for the 32 queries outside _raise_if_pid_reused, C03_cause_bounded_unrepaired = exactly the probe refusals break it, C03_cause_bounded_repaired for a lenient probe) and decided in Lean on the REAL code's outcome for every property-shaped plan of the correspondence; is_running() never raises (C03_is_running_never_raises); as_dict() in its default form (attrs=None / []) is modelled, proved (C03_as_dict_default_policy) and driven; shape facts (statements inside each modelled try, oneshot()'s finally, as_dict's iteration list, the probe's comparison) feed the obligations cfg_shapes_good / cfg_running_probe_known. Landing of /repo d7107b4 (C05's repair: the lowest-PID stop of parent() runs self._raise_if_pid_reused() before it answers None): translator fact parentRootStop (total extractor: the statements of the stop and the statement before it, as text when unrecognised) feeds the model branch Fe.rootStop (one more open + read of /proc/<pid>/stat on the stop — on the object itself and on the ancestor object parents() reaches) and the obligation cfg_parent_root_guard; C03_safe_parent, C03_safe_parents_partial and C03_safe_parents_repaired keep their strength and cover the extra probe (it can only end in NoSuchProcess(pid) or let the stop answer None: rootStop_safe), concrete runs on the lowest-PID world in C03_parent_root_stop_probe (3 accesses instead of 1; gone -> NoSuchProcess instead of None; refused probe -> NoSuchProcess = region of finding C03-denied-probe-reads-as-reuse); on the real code the repeated parent()/parents() call after the process is gone must now raise NoSuchProcess for the lowest pid too (exemption removed). Seeded round 5 (C03-4, memory_maps() turned into a generator): two more dimensions. (1) WHEN a decorated body runs: total translator fact lazyBodies (every _pslinux.Process method whose call returns a lazily evaluated object: yield in its own scope, or a returned generator expression / map / filter / zip / iter / itertools / local or module-level generator call) feeds the model's W (such a body runs with no handler of the decorator), obligation cfg_eager_bodies + cfg_good (the list is empty for the source as it is), C03_wrapped_bodies_run_inside_handlers (every decorated name, every body), C03_lazy_body_escapes_wrapper (any configuration), and at run time every zero-argument decorated method of the real platform object is called and its result asked `iter(v) is v` — the set must equal the fact. (2) the OS access of a helper on a path OUTSIDE procfs that the body read out of a procfs record: worlds carry the mappings of smaps (ProcInfo.maps: anon | file | ' (deleted)' name with or without a file of that literal name; [] = empty record of a live process), memory_maps() is modelled with its per-mapping loop and path_exists_strict (clauses interpreted from fact existsStrictClauses; fact mapsDeletedProbe pins the probe), the stat is an access of the call (Path.mapFile, may be the refused one, independent of the state of the process) in the model and in the fault layer (FaultFS.ext); C03_safe_memory_maps / C03_memory_maps_any_mappings hold for any number of mappings of any kind (induction), C03_exists_strict_only_refusal, concrete runs C03_memory_maps_probe_runs, and the seeded change as proved counterexamples (C03_lazy_memory_maps_leaks, C03_lazy_memory_maps_not_safe: a lazy memory_maps(), or one without the decorator, leaks the bare PermissionError of the refused stat, also through as_dict()); generator family `maps` (structured + random + every kind sequence of length <= 2 / <= 3, through memory_maps(), memory_maps(grouped=False), as_dict, process_iter, histories). Partial: faults at OS-access granularity only; the os.stat of a descriptor's target inside open_files() (isfile_strict) is still not an access of the model; other processes are static during a call; the history theorems assume an inactive oneshot cache at the start of each call and exclude the documented memo answers (pid, create_time, a successful exe()); parent()/parents() depend on the module global _LOWEST_PID and are not history calls of the model; 'safe under any number of refusals' is only bounded-exhaustive (C03_multi_denial_safe_Full is not proved); 'never a parsing error' is relative to the content abstraction (files of a live or zombie process are well-formed except where the kernel empties them); no correspondence case has object != target or another process changing mid-call.",
     "level_note": "Trusted: Lean kernel + {propext, Classical.choice, Quot.sound}; translator; fault layer and correspondence harness; zombie/gone behaviour tables (validated live); file contents are abstracted to well-formed/empty classes (byte-level parsing is C06/C12/C13/C14).",
     "technique": "Lean 4 Hoare-style safety proofs over a fault-plan monad (generic wrap_safe + one body lemma per method, induction for loops) + translator-fed proof obligation + exhaustive fault-position differential correspondence",
     "design_ref": "DESIGN.md §5 C03",
@@ -428,6 +428,113 @@ def facts(snap, F):
     F.try_add("parentRootStop", "String", lambda: extract.lean_str(parent_root_stop()),
               "psutil.Process.parent: statements of the lowest-PID stop (guard; return None | return None | the statements)")
 
+    # ---- seeded round 5: lazily evaluated results of platform methods, and the OS access of the helper memory_maps() calls
+
+    LAZY_CALLS = {"map", "filter", "zip", "iter", "reversed", "enumerate"}
+
+    def _own_nodes(fn):
+        """the nodes of fn's own scope (nested defs / lambdas / classes are other scopes)"""
+        stack = list(fn.body)
+        while stack:
+            n = stack.pop()
+            yield n
+            if isinstance(n, (ast.FunctionDef, ast.AsyncFunctionDef, ast.Lambda, ast.ClassDef)):
+                continue            # named, but its body is another scope
+            stack.extend(ast.iter_child_nodes(n))
+
+    def _is_generator_fn(fn):
+        return any(isinstance(n, (ast.Yield, ast.YieldFrom)) for n in _own_nodes(fn))
+
+    def lazy_bodies():
+        """TOTAL over every method of _pslinux.Process: the methods whose call returns a lazily evaluated result — a
+        generator function (a `yield` in its own scope), or a `return` (directly or through a local name) of a generator
+        expression, of map/filter/zip/iter/reversed/enumerate/itertools.*, or of a call of a generator function defined
+        locally or at module level. For those `return fun(self, …)` in wrap_exceptions' try only builds the object: the body
+        runs later, outside the decorator's handlers (model: `W`)"""
+        mod_gens = {n.name for n in lin.body if isinstance(n, ast.FunctionDef) and _is_generator_fn(n)}
+
+        def lazy_expr(e, local_gens, lazy_names):
+            if isinstance(e, ast.GeneratorExp):
+                return True
+            if isinstance(e, ast.Name):
+                return e.id in lazy_names
+            if isinstance(e, ast.IfExp):
+                return lazy_expr(e.body, local_gens, lazy_names) or lazy_expr(e.orelse, local_gens, lazy_names)
+            if isinstance(e, ast.Call):
+                f = extract.dotted(e.func) if isinstance(e.func, (ast.Name, ast.Attribute)) else ""
+                f = f or ""
+                return f in LAZY_CALLS or f.startswith("itertools.") or f in local_gens or f in mod_gens
+            return False
+
+        out = []
+        for name, fn in sorted(pm().items()):
+            if _is_generator_fn(fn):
+                out.append(name)
+                continue
+            local_gens = {n.name for n in _own_nodes(fn) if isinstance(n, ast.FunctionDef) and _is_generator_fn(n)}
+            local_gens |= {n.name for n in fn.body if isinstance(n, ast.FunctionDef) and _is_generator_fn(n)}
+            lazy_names = set()
+            for _ in range(3):      # names bound to a lazy expression (a few rounds: chains of local names)
+                for n in _own_nodes(fn):
+                    if isinstance(n, ast.Assign) and lazy_expr(n.value, local_gens, lazy_names):
+                        lazy_names |= {t.id for t in n.targets if isinstance(t, ast.Name)}
+            if any(isinstance(n, ast.Return) and n.value is not None and lazy_expr(n.value, local_gens, lazy_names)
+                   for n in _own_nodes(fn)):
+                out.append(name)
+        return out
+    F.try_add("lazyBodies", "List String", lambda: lstr(lazy_bodies()),
+              "_pslinux.Process methods whose call returns a lazy result (generator function / returned generator expression, map, "
+              "filter, …): their body runs outside @wrap_exceptions")
+
+    def exists_strict_clauses():
+        """_common.path_exists_strict: `try: os.stat(path)` + its except clauses in order, tagged "raise" (bare re-raise) /
+        "return False"; `else: return True`. Total: any other shape is returned as text in the tag"""
+        try:
+            com = extract.parse_module(snap, "_common.py")
+            fn = extract.find_def(com, "path_exists_strict")
+        except Exception:  # noqa: BLE001
+            return [(["<missing>"], "<no path_exists_strict>")]
+        tries = [n for n in fn.body if isinstance(n, ast.Try)]
+        rest = [x for x in _stmts(fn.body) if not x.startswith("try:")]
+        if len(tries) != 1 or rest:
+            return [(["<shape>"], " ;; ".join(_stmts(fn.body)))]
+        t = tries[0]
+        if _stmts(t.body) != ["os.stat(path)"] or _stmts(t.orelse) != ["return True"] or t.finalbody:
+            return [(["<shape>"], "try: %s else: %s" % (" ;; ".join(_stmts(t.body)), " ;; ".join(_stmts(t.orelse))))]
+        out = []
+        for h in t.handlers:
+            try:
+                names = _names_of(h.type)
+            except NotRecognised:
+                names = ["<%s>" % ast.unparse(h.type)]
+            body = _stmts(h.body)
+            out.append((names, "raise" if body == ["raise"] else "return False" if body == ["return False"] else " ;; ".join(body)))
+        return out
+    F.try_add("existsStrictClauses", "List (List String × String)",
+              lambda: extract.lean_list(exists_strict_clauses(), lambda c: extract.lean_pair(lstr(c[0]), extract.lean_str(c[1]))),
+              "_common.path_exists_strict: except classes -> raise | return False (os.stat in the try, else: return True)")
+
+    def maps_deleted_probe():
+        """memory_maps(): every statement / test of the method (nested helpers included) that names path_exists_strict or
+        another file-system probe of a mapping's path — expected: the one test of the `(deleted)` suffix"""
+        fn = pm().get("memory_maps")
+        if fn is None:
+            return "<no memory_maps>"
+        probes = ("path_exists_strict", "os.stat", "os.lstat", "os.path.exists", "os.path.lexists", "os.path.isfile",
+                  "isfile_strict", "os.access", "os.readlink", "os.path.realpath", "open", "open_binary", "open_text")
+        hits = []
+        for n in ast.walk(fn):
+            if isinstance(n, ast.Call) and isinstance(n.func, (ast.Name, ast.Attribute)) and extract.dotted(n.func) in probes:
+                # the innermost enclosing `if` test / statement that holds the call
+                host = None
+                for m in ast.walk(fn):
+                    if isinstance(m, ast.If) and any(x is n for x in ast.walk(m.test)):
+                        host = "if " + ast.unparse(m.test).replace('"', "'")
+                hits.append(host or ast.unparse(n).replace('"', "'"))
+        return " ;; ".join(hits) if hits else "<no probe>"
+    F.try_add("mapsDeletedProbe", "String", lambda: extract.lean_str(maps_deleted_probe()),
+              "_pslinux.Process.memory_maps: the file-system probes of a mapping's path (expected: the ' (deleted)' suffix test)")
+
     def try_scopes():
         """the statements INSIDE each try of the functions whose handlers are modelled (the except classes are separate
         facts): moving a statement out of / into a try changes the fact"""
@@ -470,9 +577,17 @@ def facts(snap, F):
 FD_KINDS = ("file", "sock", "other", "stale", "infoStale")
 
 
-def mk_proc(pid, ppid, ctime, long=False, guess=False, tids=None, fds=None, stale=False):
+MAP_KINDS = ("anon", "file", "deleted", "literal")
+DEFAULT_MAPS = ["file", "anon"]
+
+
+def mk_proc(pid, ppid, ctime, long=False, guess=False, tids=None, fds=None, stale=False, maps=None):
+    """maps: the mappings of /proc/<pid>/smaps in file order — "anon" (pseudo path), "file" (absolute path), "deleted" (the
+    name ends in ' (deleted)' and no such file exists: memory_maps() stat()s it and cuts the suffix), "literal" (a file
+    whose name really ends in ' (deleted)': stat succeeds, the name is kept); [] = an empty smaps file (kernel thread)"""
     return {"pid": pid, "ppid": ppid, "ctime": ctime, "long": long, "guess": guess,
-            "tids": tids if tids is not None else [[pid, False]], "fds": fds or [], "stale": stale}
+            "tids": tids if tids is not None else [[pid, False]], "fds": fds or [], "stale": stale,
+            "maps": list(DEFAULT_MAPS) if maps is None else list(maps)}
 
 
 def fixed_worlds():
@@ -489,7 +604,8 @@ def fixed_worlds():
     ws.append({"target": T, "procs": [
         mk_proc(101, 1, 50),
         mk_proc(T, 101, 100, long=True, guess=True, tids=[[T, False], [106, True], [107, False]],
-                fds=[[0, "file"], [1, "stale"], [2, "infoStale"], [3, "sock"], [4, "sock"], [5, "file"]]),
+                fds=[[0, "file"], [1, "stale"], [2, "infoStale"], [3, "sock"], [4, "sock"], [5, "file"]],
+                maps=["file", "deleted", "anon", "literal"]),
         mk_proc(120, T, 150, tids=[[120, False], [122, False]], fds=[[0, "file"]]),
         mk_proc(123, T, 90),                      # "older than its parent": pid reused, not a child
         mk_proc(130, T, 170, stale=True),
@@ -498,7 +614,7 @@ def fixed_worlds():
         mk_proc(101, 0, 50, fds=[[3, "other"], [4, "other"]]),
         mk_proc(105, 101, 100)]})
     ws.append({"target": T, "procs": [             # parent not listed / gone
-        mk_proc(T, 99, 100, guess=True, fds=[[7, "infoStale"], [8, "stale"]], tids=[[T, True]]),
+        mk_proc(T, 99, 100, guess=True, fds=[[7, "infoStale"], [8, "stale"]], tids=[[T, True]], maps=[]),
         mk_proc(110, 1, 10, long=True)]})
     return ws + tree_worlds()
 
@@ -561,6 +677,10 @@ def random_tree_world(rng):
     return {"target": T, "procs": procs, "family": "tree"}
 
 
+def random_maps(rng, nmax):
+    return [rng.choice(MAP_KINDS) for _ in range(rng.randrange(0, nmax + 1))]
+
+
 def random_world(rng):
     T = rng.choice([105, 140, 203])
     others = rng.sample([101, 110, 120, 121, 150, 160], rng.randrange(1, 4))
@@ -576,7 +696,7 @@ def random_world(rng):
     rng.shuffle(fds)
     fds = [[i, k] for i, (_, k) in enumerate(fds)]
     procs.append(mk_proc(T, rng.choice(others + [1]), 100, long=rng.random() < 0.5, guess=rng.random() < 0.5,
-                         tids=tids, fds=fds))
+                         tids=tids, fds=fds, maps=random_maps(rng, 4)))
     for q in others:
         procs.append(mk_proc(q, rng.choice([T, T, 1, 101]), rng.choice([50, 90, 100, 150]),
                              long=rng.random() < 0.3, stale=rng.random() < 0.2,
@@ -598,6 +718,8 @@ class BuiltWorld:
         self.target = spec["target"]
         stale_paths = set()
         stale_pids = set()
+        ext = {}
+        spec = dict(spec, procs=[dict(p, maps=list(p.get("maps", DEFAULT_MAPS))) for p in spec["procs"]])
         with _REAL["open"]("/proc/self/stat", "rb") as f:
             real_stat = f.read()
         with _REAL["open"]("/proc/self/status", "rb") as f:
@@ -625,7 +747,7 @@ class BuiltWorld:
             argv0 = b"/bin/sh" if p["guess"] else b"/nonexistent/c03prog"
             self._w(d, "cmdline", argv0 + b"\x00--flag\x00")
             self._w(d, "environ", b"A=1\x00B=2\x00")
-            self._w(d, "smaps", SMAPS)
+            self._w(d, "smaps", self._smaps(pid, p["maps"], ext))
             self._w(d, "smaps_rollup", ROLLUP)
             os.symlink("/bin/sh", os.path.join(d, "exe"))
             os.symlink("/", os.path.join(d, "cwd"))
@@ -679,11 +801,36 @@ class BuiltWorld:
             p["fds"] = [[int(f), fl[int(f)]] for f in _REAL["listdir"](os.path.join(self.root, str(pid), "fd"))]
             procs.append(p)
         self.spec = {"target": self.target, "procs": procs}
-        self.fs = FaultFS(self.root, self.target, stale_pids, stale_paths)
+        self.fs = FaultFS(self.root, self.target, stale_pids, stale_paths, ext)
         ps.PROCFS_PATH = self.root
         reset_psutil_state(ps)
         self.prime()
         self.fs.install(ps)
+
+    def _smaps(self, pid, kinds, ext):
+        """the smaps record for a list of mapping kinds; every name is distinct (memory_maps(grouped=True) groups by name).
+        The ' (deleted)' names point OUTSIDE the fake procfs and are registered with the fault layer as
+        "<pid>/map/<i>": the stat psutil makes on them is an access of the call"""
+        out = []
+        for i, kind in enumerate(kinds):
+            lo = 0x55d0a0000000 + i * 0x100000
+            if kind == "anon":
+                name, dev = "[anon:m%d]" % i, "00:00 0"
+            elif kind == "file":
+                name, dev = "/usr/lib/c03/m%d_%d.so" % (pid, i), "fd:01 %d" % (1234 + i)
+            else:
+                md = os.path.join(self.files, "maps", str(pid))
+                os.makedirs(md, exist_ok=True)
+                name, dev = os.path.join(md, "m%d" % i) + " (deleted)", "fd:01 %d" % (1234 + i)
+                if kind == "literal":
+                    with _REAL["open"](name, "wb") as f:
+                        f.write(b"x")
+                elif kind != "deleted":
+                    raise InfraError("unknown mapping kind %r" % kind)
+                ext[name] = "%d/map/%d" % (pid, i)
+            out.append(("%x-%x r--p 00000000 %s                       %s\n" % (lo, lo + 0x21000, dev, name)).encode())
+            out.append(SMAPS_FIELDS)
+        return b"".join(out)
 
     @staticmethod
     def _w(d, name, data):
@@ -758,6 +905,10 @@ SMAPS = (b"55d0a0000000-55d0a0021000 r--p 00000000 fd:01 1234                   
          b"Size:                132 kB\nRss:                  16 kB\nPss:                  16 kB\nShared_Clean:          0 kB\n"
          b"Shared_Dirty:          0 kB\nPrivate_Clean:         0 kB\nPrivate_Dirty:        16 kB\nReferenced:           16 kB\n"
          b"Anonymous:            16 kB\nSwap:                  0 kB\nVmFlags: rd wr mr mw me gd ac\n")
+SMAPS_FIELDS = (b"Size:                132 kB\nKernelPageSize:        4 kB\nMMUPageSize:           4 kB\nRss:                 132 kB\n"
+                b"Pss:                  66 kB\nShared_Clean:        132 kB\nShared_Dirty:          0 kB\nPrivate_Clean:         0 kB\n"
+                b"Private_Dirty:         0 kB\nReferenced:          132 kB\nAnonymous:             0 kB\nSwap:                  0 kB\n"
+                b"VmFlags: rd mr mw me sd\n")
 ROLLUP = (b"55d0a0000000-7ffd1c021000 ---p 00000000 00:00 0                          [rollup]\n"
           b"Rss:                 148 kB\nPss:                  82 kB\nPrivate_Clean:         0 kB\nPrivate_Dirty:        16 kB\n"
           b"Swap:                  0 kB\n")
@@ -826,6 +977,8 @@ def do_call(ps, proc, call):
             with warnings.catch_warnings():
                 warnings.simplefilter("ignore", DeprecationWarning)
                 v = proc.connections()
+        elif m == "memory_maps_flat":
+            v = proc.memory_maps(grouped=False)
         elif m == "pid":
             v = proc.pid
         else:
@@ -1020,6 +1173,12 @@ def judge(res, inp, out, trace, unknown, later, m, known=()):
     res.count("method:" + call["method"])
     res.count("impl:" + (out["exc"] if out["kind"] == "exc" else "value"))
     res.count("trace_len", len(trace))
+    nprobe = sum(1 for t in trace if "/map/" in t)
+    if nprobe:
+        # the stat of a mapping's backing path (outside procfs) performed by the REAL code, and how often it was the refused access
+        res.count("maps_probe_accesses", nprobe)
+        if any(i < len(trace) and "/map/" in trace[i] for i, _ in plan.get("deny", [])):
+            res.count("maps_probe_refused:" + call["method"])
     res.case((inp["world"]["target"], json.dumps(inp["world"], sort_keys=True), json.dumps(call), json.dumps(plan)),
              nontrivial=(fam != "none"),
              sample={"call": call, "plan": plan, "impl": out, "trace": trace} if fam in ("deny+gone", "zombie") and len(trace) > 4 else None)
@@ -1311,6 +1470,124 @@ def replay_two_denial_table(ctx, res):
             bw.close()
 
 
+# ------------------------------------------------------------------------------ family `maps` / lazily evaluated results
+
+MAPS_CALLS = [{"method": "memory_maps"}, {"method": "memory_maps_flat"},
+              {"method": "as_dict", "attrs": ["memory_maps", "pid"]},
+              {"method": "as_dict", "attrs": ["memory_full_info", "memory_maps", "exe"]},
+              {"method": "process_iter", "attrs": ["pid", "memory_maps"]}]
+MAPS_HISTORIES = [["memory_maps", "is_running", "memory_maps"], ["memory_full_info", "memory_maps", "exe", "memory_maps"]]
+
+
+def maps_world(kinds, other=None, T=105):
+    return {"target": T, "family": "maps",
+            "procs": [mk_proc(101, 1, 50, maps=other), mk_proc(T, 101, 100, maps=kinds)]}
+
+
+def maps_structured_worlds():
+    """every kind next to every other, the probe first / last / twice in a row, another process with probes of its own
+    (process_iter visits it), an empty record"""
+    return [maps_world(["file", "deleted", "anon", "literal"]),
+            maps_world(["deleted", "deleted", "literal", "literal", "file", "deleted"], other=["literal", "deleted"]),
+            maps_world(["anon", "anon", "file", "deleted"], other=[]),
+            maps_world([], other=["deleted"])]
+
+
+def maps_exhaustive_worlds(nmax=2):
+    """every sequence of mapping kinds of length <= nmax"""
+    seqs = [[]]
+    out = []
+    for _ in range(nmax):
+        seqs = [q + [k] for q in seqs for k in MAP_KINDS]
+        out += seqs
+    return [maps_world(q) for q in out]
+
+
+def explore_maps_family(ctx, res, batch):
+    """family `maps`: the per-mapping probe of memory_maps() — an os.stat OUTSIDE procfs per ' (deleted)' name — as a
+    fault point, through memory_maps(), memory_maps(grouped=False), as_dict and process_iter; structured worlds (every
+    single + double fault, histories), random worlds, and every kind sequence of length <= 2 (single faults)"""
+    ps = ctx.psutil
+    thorough = ctx.tier == "thorough"
+    total = 0
+    worlds = [(w, "structured") for w in maps_structured_worlds()]
+    worlds += [(maps_world(random_maps(ctx.rng, 7) or ["deleted"], other=random_maps(ctx.rng, 3)), "random")
+               for _ in range(ctx.n(2, 10) if ctx.budget_factor == 1 else 6)]
+    worlds += [(w, "exhaustive") for w in maps_exhaustive_worlds(3 if thorough else 2)]
+    for wi, (spec, sub) in enumerate(worlds):
+        bw = BuiltWorld(ps, spec)
+        try:
+            calls = MAPS_CALLS if sub != "exhaustive" else MAPS_CALLS[:3]
+            n = explore_world(ctx, res, bw, calls, sub == "structured" or thorough, batch)
+            res.count("family:maps", n)
+            res.count("family:maps:" + sub, n)
+            res.count("maps_kinds:" + ",".join(spec["procs"][1]["maps"]) if sub != "random" else "maps_kinds:<random>")
+            total += n
+            if sub == "structured" and wi < 2:
+                batch.flush()       # (single calls are judged first: the replay then names a single call)
+                total += explore_histories(ctx, res, bw, MAPS_HISTORIES)
+        finally:
+            bw.close()
+        batch.flush()
+    return total
+
+
+def lazy_fact(ctx):
+    """the value of the fact `lazyBodies` the model of THIS run was built with (Generated/C03.lean, written by the
+    translator at the start of the run); None when it cannot be read (then the translator already reported it)"""
+    import re
+    try:
+        with _REAL["open"](os.path.join(extract.GEN_DIR, "C03.lean"), "r", encoding="utf-8") as f:
+            txt = f.read()
+    except OSError:
+        return None
+    m = re.search(r"def lazyBodies : List String :=\s*\[(.*?)\]", txt, re.S)
+    if not m:
+        return None
+    return re.findall(r'"([^"]*)"', m.group(1))
+
+
+def probe_lazy_results(ctx, res):
+    """the runtime side of the fact `lazyBodies`: on a fault-free world call every zero-argument method of the platform
+    object that carries @wrap_exceptions and ask whether the RESULT is its own iterator (generator, map, filter, zip,
+    itertools… — anything whose evaluation is deferred to the consumer); the set must be the one the translator read
+    off the source, and the one the model runs with"""
+    import inspect
+    ps = ctx.psutil
+    bw = BuiltWorld(ps, maps_structured_worlds()[0])
+    lazy, probed = [], 0
+    try:
+        proc = ps.Process(bw.target)
+        plat = proc._proc
+        for name in sorted(dir(type(plat))):
+            fn = getattr(type(plat), name, None)
+            if not callable(fn) or not hasattr(fn, "__wrapped__") or name.endswith("_set") or name in ("wait", "kill"):
+                continue
+            try:
+                sig = inspect.signature(inspect.unwrap(fn))
+            except (TypeError, ValueError):
+                continue
+            req = [q for q in list(sig.parameters.values())[1:] if q.default is q.empty
+                   and q.kind in (q.POSITIONAL_ONLY, q.POSITIONAL_OR_KEYWORD)]
+            if req:
+                continue
+            probed += 1
+            try:
+                v = getattr(plat, name)()
+            except Exception:  # noqa: BLE001
+                continue
+            try:
+                if iter(v) is v:
+                    lazy.append(name)
+            except TypeError:
+                pass
+    finally:
+        bw.close()
+    res.count("lazy_probe_methods", probed)
+    res.extra["lazy_results_runtime"] = lazy
+    return lazy
+
+
 def explore_world(ctx, res, bw, calls, doubles, batch, budget=None):
     n = 0
     for call in calls:
@@ -1359,6 +1636,13 @@ def correspond(ctx, res):
     batch = Batch(ctx, res)
     total = 0
     replay_two_denial_table(ctx, res)
+    lazy = probe_lazy_results(ctx, res)
+    declared = lazy_fact(ctx)
+    if declared is not None and sorted(lazy) != sorted(declared):
+        res.disagree("model", {"lazy_results": True}, sorted(lazy), sorted(declared), None,
+                     note="platform methods whose result is a lazy iterator at run time %s differ from the translator fact "
+                          "lazyBodies %s the model runs with" % (sorted(lazy), sorted(declared)))
+    total += explore_maps_family(ctx, res, batch)
     for wi, spec in enumerate(worlds):
         bw = BuiltWorld(ps, spec)
         try:
